@@ -72,7 +72,7 @@ func decodeOracle(w *World, i int, op Op, obs string) *Mismatch {
 }
 
 func checkC14(rep *Report, rng *Rng, tier string) {
-	n := 160
+	n := 220
 	if tier == "thorough" {
 		n = 3000
 	}
@@ -84,6 +84,8 @@ func checkC14(rep *Report, rng *Rng, tier string) {
 		return d.RunCfg(), ops, d.String()
 	}, nil)
 	rep.Extra["steps_compared_with_byte_level_model_DStore"] = dmodelSteps
+	rep.Extra["histories_satisfying_history_ok_of_c02_history"] = dmodelHistOK
+	rep.Extra["histories_outside_history_ok"] = dmodelHistNotOK
 }
 
 func genC14(r *Rng, i int) (CfgDesc, []Op) {
